@@ -22,7 +22,8 @@ def main():
 
     def se(slot):
         if isinstance(slot, tuple):     # ("stamp", t) / ("point", t, f): zero-extent geometries, compared after the default buffering
-            geom = data.TimeStamp(coordinates=slot[1]) if slot[0] == "stamp" else data.Point(coordinates=[slot[1], slot[2]])
+            geom = (data.TimeStamp(coordinates=slot[1]) if slot[0] == "stamp" else data.TimeInterval(coordinates=[slot[1], slot[2]]) if slot[0] == "interval"
+                    else data.Point(coordinates=[slot[1], slot[2]]))
             return data.SoundEvent(recording=rec, geometry=geom)
         return data.SoundEvent(recording=rec, geometry=None if slot is None else data.BoundingBox(coordinates=[slot, 100.0, slot + 0.8, 900.0]))
 
@@ -32,14 +33,19 @@ def main():
             return max(0.0, g.coordinates - 0.01), g.coordinates + 0.01
         if g.type == "Point":
             return max(0.0, g.coordinates[0] - 0.01), g.coordinates[0] + 0.01
+        if g.type == "TimeInterval":      # intervals have an extent of their own: compared as they are
+            return g.coordinates[0], g.coordinates[1]
         return g.coordinates[0], g.coordinates[2]
 
     ann_choices = [[], [(0, "a")], [(0, "a"), (2, "b")], [(None, "a")], [(0, None)], [(1, "zzz"), (3, "c"), (None, "b")],
-                   [(("stamp", 2.0), "a"), (("point", 5.0, 3000.0), "b")]]
+                   [(("stamp", 2.0), "a"), (("point", 5.0, 3000.0), "b")],
+                   [(("interval", 1.0, 2.0), "a"), (("interval", 6.0, 7.0), "b")]]
     pred_choices = [[], [(0, {"a": 0.75})], [(0.2, {"a": 0.5, "b": 0.25})], [(4, {"c": 0.5})], [(None, {"a": 0.5})],
                     [(0.1, {"b": 0.75}), (2.1, {"b": 0.5, "zzz": 0.25}), (None, {"c": 0.25})], [(0, {}), (0.4, {"a": 0.25})],
                     # zero-extent predictions: far away in time (must stay unpaired), and close in time
-                    [(("stamp", 40.0), {"a": 0.75}), (("point", 5.005, 3050.0), {"b": 0.5})], [(("stamp", 2.004), {"a": 0.5}), (("point", 65.0, 3000.0), {"b": 0.75})]]
+                    [(("stamp", 40.0), {"a": 0.75}), (("point", 5.005, 3050.0), {"b": 0.5})], [(("stamp", 2.004), {"a": 0.5}), (("point", 65.0, 3000.0), {"b": 0.75})],
+                    # intervals that come close to an annotated interval without overlapping it, and one that overlaps
+                    [(("interval", 2.01, 3.0), {"a": 0.75}), (("interval", 6.5, 8.0), {"b": 0.5})], [(("interval", 0.2, 0.995), {"a": 0.5})]]
     tagof = {"a": vocab[0], "b": vocab[1], "c": vocab[2], "zzz": other}
     combos = list(itertools.product(ann_choices, pred_choices))
     n_clip_sets = len(combos) + (40 if s.tier == "quick" else 600)
